@@ -236,6 +236,7 @@ def campaign(bindir, prop, tier, seed, work, cases, seconds, workers=NCPU):
 def merge_stats(work, workers):
     tot = {"cases": 0, "steps": 0, "nontrivial": 0, "labels": {}, "samples": [], "wall": 0.0}
     hashes = set()
+    extra_distinct = 0
     for w in range(workers):
         p = os.path.join(work, "w%d.json" % w)
         try:
@@ -249,9 +250,10 @@ def merge_stats(work, workers):
         for k, v in d["labels"].items():
             tot["labels"][k] = tot["labels"].get(k, 0) + v
         hashes.update(d["hashes"])
+        extra_distinct += d.get("count_distinct", 0)
         if len(tot["samples"]) < 4:
             tot["samples"].extend(d["samples"][:1])
-    tot["distinct_nontrivial"] = len(hashes)
+    tot["distinct_nontrivial"] = len(hashes) + extra_distinct
     return tot
 
 
